@@ -29,7 +29,9 @@ _tmp = None
 def tmpdir():
     global _tmp
     if _tmp is None:
-        _tmp = tempfile.mkdtemp(prefix="pv-c17-")
+        import core
+        os.makedirs(core.WORK, exist_ok=True)
+        _tmp = tempfile.mkdtemp(prefix="pv-c17-", dir=core.WORK)
     return _tmp
 
 
